@@ -7,6 +7,7 @@ if ! git diff --quiet; then echo "repo has uncommitted changes" >&2; exit 2; fi
 git apply "$PATCH" || { echo "patch does not apply" >&2; exit 2; }
 trap 'git -C /repo checkout -- . ' EXIT
 cd /verif
+export VERIF_EVIDENCE_DIR=/verif/work/evidence_mut
 for p in "$@"; do
   start=$(date +%s)
   python3 check.py "$p" > /verif/work/mut_$p.out 2> /verif/work/mut_$p.err; rc=$?
